@@ -9,7 +9,7 @@ from lib.coqterm import cbool, cbytes, clist, cnat, copt, hx, unhx
 
 ID = "C18"
 QUICK_N = 2400
-THOROUGH_N = 40000
+THOROUGH_N = 19200
 SHARD = 800
 COQ_PRELUDE = "From MV Require Import Model.AlpnPrelude Model.Alpn.\nOpen Scope N_scope.\n"
 TRANSLATORS = ["alpn_select", "client_tls_reset"]
